@@ -122,11 +122,11 @@ func genHier(rng *rand.Rand, index int) *HierSpec {
 		}
 		return l
 	}
-	rootMode := modeNSEC
-	if rng.IntN(3) == 0 {
-		rootMode = modeNSEC3
-	}
-	root := mk("root", ".", rootMode)
+	// The root is always NSEC-signed, like the real one: sdns cannot validate
+	// an NXDOMAIN from an NSEC3-signed root (FINDINGS.md, observation B), which
+	// would only turn controls into SERVFAIL.
+	_ = rng.IntN(3) // keep the stream position stable
+	root := mk("root", ".", modeNSEC)
 	root.Servers = []string{"root-a"}
 	tl := mk("tld", tld, pickMode(rng, false))
 	tl.Servers = []string{"tld-a"}
@@ -165,7 +165,7 @@ func genHier(rng *rand.Rand, index int) *HierSpec {
 		}
 		h.Levels = append(h.Levels, sl)
 	}
-	h.NoAnchor = rng.IntN(20) == 0
+	h.NoAnchor = rng.IntN(15) == 0
 	return h
 }
 
